@@ -45,7 +45,8 @@ def strategy(n_rows):
         vals = draw(st.lists(st.one_of(st.floats(0.02, 0.98), st.floats(0.02, 0.98), st.floats(0.1, 0.9), st.floats(0.2, 0.8), st.sampled_from([0.0, 1.0]), st.floats(1.5, 4.0), st.floats(-3.0, -0.5)),
                              min_size=k, max_size=k))
         return {'table': table, 'config': cfg, 'cond_cols': list(cols), 'cond_pos': vals,
-                'container': draw(st.sampled_from(['dict', 'series'])), 'seed': draw(S.SEEDS), 'n': n_rows}
+                'container': draw(st.sampled_from(['dict', 'series'])), 'seed': draw(S.SEEDS), 'n': n_rows,
+                'prefit_seed': draw(st.one_of(st.none(), st.none(), S.SEEDS))}
 
     return cases()
 
@@ -101,8 +102,14 @@ def oracle(case):
     names = list(df.columns)
     d = len(names)
     model = M.build_gaussian(case['config'], names, random_state=case['seed'])
-    value(model.fit, df.copy(), what='fit')
     cols = [j % d for j in case['cond_cols']]
+    if case.get('prefit_seed') is not None:
+        # history: the same object was fitted on another table and conditionally sampled on the same columns before
+        other = M.variant_table(df, case['prefit_seed'])
+        value(model.fit, other, what='fit (earlier table)')
+        value(model.sample, 3, conditions={names[j]: float(other[names[j]].iloc[0]) for j in cols}, what='sample(conditions) (earlier fit)')
+        model.set_random_state(case['seed'])
+    value(model.fit, df.copy(), what='fit')
     vals = [cond_value(df[names[j]].to_numpy(), p) for j, p in zip(cols, case['cond_pos'])]
     cond = make_conditions(names, cols, vals, case['container'])
     before = snapshot(cond)
@@ -147,7 +154,7 @@ def oracle(case):
         scores[:, a] = stats.norm.ppf(np.clip(u, EPS32, 1 - EPS32))
     eps = vs.dkw_eps(n)
     worst = 0.0
-    cls = ['d=%d' % d, 'k=%d' % len(cols), 'container:' + case['container']]
+    cls = ['d=%d' % d, 'k=%d' % len(cols), 'container:' + case['container'], 'refitted-model' if case.get('prefit_seed') is not None else 'fresh-model']
     for a, j in enumerate(free):
         if sd[a] < 1e-6:
             cls.append('degenerate-free-column')
